@@ -134,11 +134,13 @@ fn main() -> Result<(), Box<dyn std::error::Error>> {
                 }
                 s.write_tokenized_text(&mut buf);
                 out.write_all(buf.as_bytes())?;
+                out.write_all(b"\n")?;
                 if args.scores {
                     print_scores(&s, &mut out)?;
                 }
+            } else {
+                out.write_all(b"\n")?;
             }
-            out.write_all(b"\n")?;
             if args.tag_scores {
                 print_tag_scores(&s, &mut out)?;
             }
